@@ -21,8 +21,8 @@ RULE = ('Generated panels (1-6 geos quick / 1-7 thorough), all eligibility matri
         'returned >= 1 design and the feasible set has >= 2 members; distinct by input description.')
 ASSUMPTIONS = ['inputs on which either search raises are counted, not judged (C09)']
 EXHAUSTIVE = {'quick': False, 'thorough': False}
-MINIMA = {'quick': {'mixed_sign_cases': 8, 'low_noise_cases': 10, 'searches_after_caller_edits': 50, 'same_k_comparisons': 10, 'flat_treatment_cases': 10, 'must_include_overflow_cases': 10, 'shared_data_searches': 40, 'near_bound_cases': 25, 'dyadic_compared': 30, 'compared': 200, 'greedy_designs': 150, 'distinct_nontrivial': 80, 'referee_runs': 40},
-          'thorough': {'mixed_sign_cases': 80, 'low_noise_cases': 100, 'searches_after_caller_edits': 500, 'same_k_comparisons': 100, 'flat_treatment_cases': 100, 'must_include_overflow_cases': 100, 'shared_data_searches': 400, 'near_bound_cases': 250, 'dyadic_compared': 300, 'compared': 2500, 'greedy_designs': 2000, 'distinct_nontrivial': 1000, 'referee_runs': 500}}
+MINIMA = {'quick': {'mixed_sign_cases': 8, 'low_noise_cases': 10, 'searches_after_caller_edits': 50, 'same_k_comparisons': 10, 'flat_treatment_cases': 10, 'must_include_overflow_cases': 10, 'shared_data_searches': 40, 'near_bound_cases': 18, 'dyadic_compared': 20, 'compared': 200, 'greedy_designs': 150, 'distinct_nontrivial': 80, 'referee_runs': 40},
+          'thorough': {'mixed_sign_cases': 80, 'low_noise_cases': 100, 'searches_after_caller_edits': 500, 'same_k_comparisons': 100, 'flat_treatment_cases': 100, 'must_include_overflow_cases': 100, 'shared_data_searches': 400, 'near_bound_cases': 180, 'dyadic_compared': 200, 'compared': 2500, 'greedy_designs': 2000, 'distinct_nontrivial': 1000, 'referee_runs': 500}}
 N = {'quick': 400, 'thorough': 3600}
 CASE_TIMEOUT = {'quick': 300, 'thorough': 1200}
 
